@@ -296,7 +296,16 @@ class Connection(object):
                 proxy.____refcount__ += 1  # if cached then remote incremented refcount, so sync refcount
             else:
                 proxy = self._netref_factory(id_pack)
-                self._proxy_cache[id_pack] = proxy
+                cached = self._proxy_cache.get(id_pack)
+                if cached is not None:
+                    # asking the peer for the object's class serves whatever arrives meanwhile: a nested request or
+                    # reply carrying the same object has already created its proxy. That one is THE proxy; this
+                    # receipt is one more reference to it, and the spare one has nothing to release
+                    proxy.____refcount__ = 0
+                    cached.____refcount__ += 1
+                    proxy = cached
+                else:
+                    self._proxy_cache[id_pack] = proxy
             return proxy
         raise ValueError("invalid label %r" % (label,))
 
